@@ -259,6 +259,18 @@ def parity_sites(fn: ast.AST) -> List[Tuple[ast.AST, str]]:
             out.append((n, K.of(n.left, n)))
         elif isinstance(n, ast.BinOp) and isinstance(n.op, ast.BitAnd) and isinstance(n.right, ast.Constant) and n.right.value == 1:
             out.append((n, K.of(n.left, n)))
+        elif isinstance(n, ast.Call) and (dotted(n.func) or "") in ("np.rint", "np.round", "np.around", "round", "numpy.rint") and n.args:
+            # round-half-to-even of (position + something): the tie-break follows the parity of the position
+            terms, stack = [], [K.defs.expand(n.args[0], n, depth=2)]
+            while stack:
+                t = stack.pop()
+                if isinstance(t, ast.BinOp) and isinstance(t.op, (ast.Add, ast.Sub)):
+                    stack += [t.left, t.right]
+                else:
+                    terms.append(t)
+            kinds = [K.of(t, n) for t in terms]
+            if len(terms) > 1:
+                out.append((n, I if any(k in (C, C0, I) for k in kinds) else D))
     return out
 
 
@@ -277,7 +289,7 @@ def check_position_parity(ctx: Ctx, rid: str, rel: str, qual: str) -> int:
     n = 0
     for node, k in parity_sites(fn):
         n += 1
-        ctx.ob(rid, rel, node, f"{qual}: `{canon(node)[:100]}` takes the remainder / quotient of {'a position' if k in (C, C0, I) else 'a non-positional value'}", k not in (C, C0, I), expected="no parity / modulo of a row or column position", detail="the treatment of a pixel depends on the parity (or residue) of its absolute position: a crop starting one pixel later gives different values")
+        ctx.ob(rid, rel, node, f"{qual}: `{canon(node)[:100]}` takes the remainder / quotient / half-to-even rounding of {'a position' if k in (C, C0, I) else 'a non-positional value'}", k not in (C, C0, I), expected="no parity / modulo of a row or column position", detail="the treatment of a pixel depends on the parity (or residue) of its absolute position: a crop starting one pixel later gives different values")
     return n
 
 
